@@ -67,6 +67,13 @@ def h_hooks(sx):
     w2, _ = build_world(sx, {"hooks": True, "fault": True, "fault2": bool(p.get("two_faults"))})
     if p.get("two_faults"):
         sx.assume(sx.int("fault") < sx.int("fault2"))
+    if p.get("fault_range"):
+        # thorough tier: the unbounded fault position is split into intervals that together cover Z (parallel jobs)
+        lo, hi = p["fault_range"]
+        if lo is not None:
+            sx.assume(sx.int("fault") >= lo)
+        if hi is not None:
+            sx.assume(sx.int("fault") < hi)
     w2.run()
     L2 = [tuple(h) for h in w2.hooklog]
     obs.update(L2=[list(x) for x in L2], st2=w2.status_table(), fired=[list(map(str, f)) for f in w2.fault_fired],
@@ -167,6 +174,13 @@ def jobs(tier, seed):
                         {"select": True, "stop": "sym", "out_dom": {"*": [0, 1]}}),
         })
     for name, (sh, opts) in shapes.items():
+        if name in ("rule-outline", "3sc", "select2"):
+            for stop in (False, True):
+                for ri, rng in enumerate([(None, 8), (8, 16), (16, 24), (24, 32), (32, None)]):
+                    js.append(Job("hooks.%s.stop%d.k%d" % (name, stop, ri), "props.c12:h_hooks",
+                                  {"shapes": sh, "opts": dict(opts, stop=stop), "fault_range": rng},
+                                  reach=REACH if ri == 0 else [], min_paths=15 if ri == 0 else 1, cost=1000, validate=200))
+            continue
         js.append(Job("hooks.%s" % name, "props.c12:h_hooks", {"shapes": sh, "opts": opts},
                       reach=REACH if name not in ("skipstep",) else REACH[:3], min_paths=15, cost=100,
                       validate=120 if tier == "quick" else 2000))
